@@ -160,7 +160,7 @@ Example C13_example_compose :
   qm (rmat QcRing (rcompose QcRing p q)) = qm (mmul QcRing (rmat QcRing p) (rmat QcRing q))
   /\ snd (rcompose QcRing p q) = true
   /\ qm (rmat QcRing (rpow QcRing 3 p)) = qm (mopp QcRing (rmat QcRing (rpow QcRing 3 (fst p, false))))
-  /\ this (mdet QcRing (rmat QcRing (rpow QcRing (-3) p))) = (-1 # 1)%Q.
+  /\ qz (mdet QcRing (rmat QcRing (rpow QcRing (-3) p))) = (-1, 1)%Z.
 Proof. vm_compute. repeat split; reflexivity. Qed.
 Example C13_example_history :
   fst (qc_history [EdReflect; EdSetComp 2%nat [qcq 1 2; qcq 0 1]; EdGather [1%nat; 0%nat]] [qrot_lit 1 2 2 4 5 true; qrot_lit 2 3 6 0 7 false]) = true.
